@@ -281,10 +281,12 @@ Proof.
     destruct (root_at_exists (length l) l (le_n _)) as [k R]; [discriminate|].
     rewrite E in R. clear E.
     assert (G : forall k l, (2 <= length l)%nat -> root_at k l zero_hash -> exists w, H w = zero_hash).
-    { clear. induction k as [|k IH]; intros l L R; inversion R as [|k' l' r' L' R']; subst; [simpl in L; lia|].
+    { clear. induction k as [|k IH]; intros l L R.
+      { inversion R; subst. simpl in L; lia. }
+      inversion R as [|k' l' r' L' R']; subst.
       destruct (le_lt_dec 2 (length (pair_level l))) as [L2|L2].
       - apply (IH (pair_level l)); assumption.
-      - destruct l as [|a [|b [|c t]]]; simpl in L, L2; try lia.
+      - destruct l as [|a [|b [|c [|d t]]]]; simpl in L, L2; try lia.
         simpl in R'. inversion R' as [z|k' l' r' L3 R3]; subst; [eauto|simpl in L3; lia]. }
     apply (G k l); assumption.
 Qed.
